@@ -478,6 +478,12 @@ func (c *Client) handleSessionMessage(addr *net.UDPAddr, msg []byte) error {
 		return nil
 	}
 
+	// A datagram too short to hold a header, counter and tag cannot be a
+	// transport message; reject it before sizing the plaintext buffer.
+	if PlaintextLen(len(msg)) < 0 {
+		return ErrInvalidMessage
+	}
+
 	// TODO(dadrian): Can we avoid this allocation?
 	plaintext := make([]byte, PlaintextLen(len(msg)))
 	_, mt, err := c.ss.readPacketLocked(plaintext, msg, c.ss.readKey)
